@@ -160,6 +160,7 @@ def run(ctx):
 
     unscheduled_stream(ctx)
     decimal_stream(ctx)
+    step_type_stream(ctx)
 
     # constructor: every (scheduled, callable) pattern --------------------------------------
     lines, pend = [], []
@@ -365,6 +366,41 @@ def unscheduled_stream(ctx):
         ctx.case(str(case) + str(calls), nontrivial=any(sched) and (any(call_) or shared))
         ctx.count('shared-function' if shared else 'distinct-functions')
         ctx.count('callable-unscheduled' if any(call_) else 'constant-unscheduled')
+
+
+def step_type_stream(ctx):
+    """the explicitly supplied step is what the factor functions receive, whatever integer-valued type it has: a numpy
+    integer (`for epoch in np.arange(n)`), a float epoch, a 0-dim tensor"""
+    import torch
+    from kfac.preconditioner import KFACPreconditioner
+    from kfac.scheduler import LambdaParamScheduler
+    rng = ctx.rng
+    try:
+        import numpy as np
+    except Exception:  # noqa: BLE001
+        np = None
+    for _ in range(ctx.budget(60, 400)):
+        p = KFACPreconditioner(torch.nn.Linear(2, 2), damping=0.5, lr=0.25, kl_clip=0.125, factor_decay=0.5)
+        p._steps = rng.choice([7, 14, 3])
+        k = rng.randrange(0, 6)
+        kinds = {'int': k, 'float': float(k), 'tensor': torch.tensor(k)}
+        if np is not None:
+            kinds['np.int64'] = np.int64(k)
+            kinds['np.int32'] = np.int32(k)
+        kind = rng.choice(sorted(kinds))
+        s_ = LambdaParamScheduler(p, damping_lambda=lambda st: 1.0 + 0.25 * float(st), lr_lambda=lambda st: 2.0 ** (-float(st)))
+        case = {'stream': 'step-types', 'explicit_step': k, 'type': kind, 'preconditioner_steps': p._steps}
+        try:
+            s_.step(kinds[kind])
+        except Exception as e:  # noqa: BLE001
+            ctx.fail(f'scheduler.step({kind} {k}) raised {type(e).__name__}: {e}', case, 'step-type-raised')
+            continue
+        want = (0.5 * (1.0 + 0.25 * k), 0.25 * 2.0 ** (-k))
+        if (p.damping, p.lr) != want:
+            ctx.fail(f'scheduler.step({kind}({k})) with preconditioner.steps = {p._steps}: damping, lr = {(p.damping, p.lr)}, expected {want} '
+                     '(factors of the supplied step)', case, 'step-type-ignored')
+        ctx.evaluations += 1
+        ctx.count('step-type-' + kind)
 
 
 def decimal_stream(ctx):
